@@ -9,6 +9,7 @@ CONSTANTS
   FnOut = FALSE
   Poller = FALSE
   Aging = FALSE
+  Overruns = FALSE
   Gen = "off"
 INVARIANTS NoClauseViolated InvQuiescentAtRelease InvDurLagsMem
 CHECK_DEADLOCK TRUE
